@@ -153,6 +153,82 @@ Lemma get_lines_nr N st (R : RI N st) a b indent keep :
   0 <= a -> b <= N -> (keep = true -> a < b -> keep_ok st (b - 1)) -> nr (get_lines st a b indent keep).
 Proof. intros H0 HE HK. unfold get_lines. destruct (b <=? a); [apply nr_ok|]. apply (get_lines_loop_nr N st R); assumption. Qed.
 
+(* ---- indentation columns as getLines counts them ---- *)
+Fixpoint gcol (fuel : nat) (src : str) (first p0 li bs : Z) : Z :=
+  match fuel with
+  | O => li
+  | S f =>
+      if first <? p0 then
+        match char_at src first with
+        | Some ch => gcol f src (first + 1) p0 (if is_space ch then (if ch =? 9 then li + (4 - (li + bs) mod 4) else li + 1) else li + 1) bs
+        | None => li
+        end
+      else li
+  end.
+Definition gcols (src : str) (first p0 li bs : Z) : Z := gcol (S (Z.to_nat (p0 - first))) src first p0 li bs.
+
+Lemma gcol_fuel : forall f1 f2 src first p0 li bs, (Z.to_nat (p0 - first) < f1)%nat -> (Z.to_nat (p0 - first) < f2)%nat ->
+  gcol f1 src first p0 li bs = gcol f2 src first p0 li bs.
+Proof.
+  induction f1 as [|f1 IH]; intros f2 src first p0 li bs H1 H2; [lia|]. destruct f2 as [|f2]; [lia|]. cbn [gcol].
+  destruct (first <? p0) eqn:E; [|reflexivity]. destruct (char_at src first); [|reflexivity]. apply IH; lia.
+Qed.
+
+Lemma gcols_step src first p0 li bs : first < p0 ->
+  gcols src first p0 li bs = match char_at src first with
+                             | Some ch => gcols src (first + 1) p0 (if is_space ch then (if ch =? 9 then li + (4 - (li + bs) mod 4) else li + 1) else li + 1) bs
+                             | None => li end.
+Proof.
+  intros H. unfold gcols. replace (S (Z.to_nat (p0 - first))) with (S (S (Z.to_nat (p0 - (first + 1))))) by lia.
+  cbn [gcol]. assert (E : (first <? p0) = true) by lia. rewrite E. destruct (char_at src first); reflexivity.
+Qed.
+Lemma gcols_end src first p0 li bs : p0 <= first -> gcols src first p0 li bs = li.
+Proof. intros H. unfold gcols. cbn [gcol]. assert (E : (first <? p0) = false) by lia. rewrite E. reflexivity. Qed.
+
+Lemma tabstop_mono bs x y : x <= y -> x + (4 - (x + bs) mod 4) <= y + (4 - (y + bs) mod 4).
+Proof.
+  intros H. pose proof (Z.mod_pos_bound (x + bs) 4 ltac:(lia)). pose proof (Z.mod_pos_bound (y + bs) 4 ltac:(lia)).
+  pose proof (Z.div_mod (x + bs) 4 ltac:(lia)). pose proof (Z.div_mod (y + bs) 4 ltac:(lia)).
+  assert ((x + bs) / 4 <= (y + bs) / 4) by (apply Z.div_le_mono; lia). lia.
+Qed.
+
+Lemma gcols_mono src bs p0 : forall (k : nat) first li li', Z.to_nat (p0 - first) = k -> li <= li' ->
+  gcols src first p0 li bs <= gcols src first p0 li' bs.
+Proof.
+  induction k as [|k IH]; intros first li li' Hk Hl.
+  - rewrite !gcols_end by lia. exact Hl.
+  - rewrite !gcols_step by lia. destruct (char_at src first) as [ch|]; [|exact Hl].
+    apply IH; [lia|]. destruct (is_space ch); [|lia]. destruct (ch =? 9); [apply tabstop_mono; exact Hl | lia].
+Qed.
+Lemma gcols_ge src bs p0 : forall (k : nat) first li, Z.to_nat (p0 - first) = k -> li <= gcols src first p0 li bs.
+Proof.
+  induction k as [|k IH]; intros first li Hk.
+  - rewrite gcols_end by lia. lia.
+  - rewrite gcols_step by lia. destruct (char_at src first) as [ch|]; [|lia].
+    eapply Z.le_trans; [|apply IH; lia]. destruct (is_space ch); [|lia]. destruct (ch =? 9); [|lia].
+    pose proof (Z.mod_pos_bound (li + bs) 4 ltac:(lia)). lia.
+Qed.
+
+(* once the columns up to the logical line start reach the indent, the scan stops there at the latest *)
+Lemma gl_scan_nr_cols : forall fuel src first last b li indent ts bs,
+  0 <= first -> b <= first <= b + ts -> b + ts <= len src -> indent <= gcols src first (b + ts) li bs ->
+  nr (gl_scan fuel src first last b li indent ts bs).
+Proof.
+  induction fuel as [|f IH]; intros src first last b li indent ts bs H0 HB HL HC; cbn [gl_scan]; [apply nr_ok|].
+  destruct ((first <? last) && (li <? indent)) eqn:E; [|apply nr_ok].
+  destruct (Z.eq_dec first (b + ts)) as [Eq|Ne]; [rewrite gcols_end in HC by lia; lia|].
+  rewrite gcols_step in HC by lia.
+  destruct (py_idx src first) as [ch|ex|] eqn:Ec; cbn [bind].
+  2:{ intros e' X. exact (nr_py_idx src first ltac:(lia) ex Ec). }
+  2:{ apply nr_oof. }
+  assert (CA : char_at src first = Some ch).
+  { unfold char_at. unfold py_idx in Ec. cbv zeta in *. destruct (get src (if first <? 0 then first + len src else first)); [congruence | discriminate Ec]. }
+  rewrite CA in HC.
+  destruct (is_space ch) eqn:Sp.
+  - apply IH; try lia; try exact HC.
+  - assert (X : (first - b <? ts) = true) by lia. rewrite X. apply IH; try lia; try exact HC.
+Qed.
+
 (* ---- writing saved table entries back gives the original table ---- *)
 Lemma tb_ext (l l' : list Z) : len l = len l' -> (forall j, 0 <= j < len l -> tb l j = tb l' j) -> l = l'.
 Proof.
